@@ -1,12 +1,15 @@
 package main
 
 import (
+	"container/list"
 	"fmt"
 	"strconv"
 	"strings"
 
 	"verifharness/hx"
 
+	"github.com/iotaledger/hive.go/ds/orderedmap"
+	"github.com/iotaledger/hive.go/ds/types"
 	"github.com/iotaledger/hive.go/ds/walker"
 )
 
@@ -19,6 +22,7 @@ type wkWorld struct {
 	// oracle: abstract deque + seen set + what must still come out
 	pending []int
 	seen    map[int]bool
+	order   []int // first offers since the last reset, in order (the insertion order of pushedElements)
 	stopped bool
 	// every element once: counts since the last reset
 	offered map[int]int
@@ -39,6 +43,9 @@ func (w *wkWorld) offer(x int, front bool) {
 		if !w.revisit {
 			return
 		}
+	}
+	if !w.seen[x] {
+		w.order = append(w.order, x)
 	}
 	w.seen[x] = true
 	if front {
@@ -167,6 +174,23 @@ func (w *wkWorld) exec(f []string) string {
 		w.probe("Next")
 
 		return "[" + strings.Join(out, " ") + "]"
+	case "state":
+		return stateOf(func() string {
+			q := listInts(fieldAs[*list.List](w.w, "stack"))
+			pushed := orderedKeys(fieldAs[*orderedmap.OrderedMap[int, types.Empty]](w.w, "pushedElements"))
+			stopped, revisit := fieldAs[bool](w.w, "walkStopped"), fieldAs[bool](w.w, "revisitElements")
+			if !eqInts(q, w.pending) {
+				w.fail("queue-order", fmt.Sprintf("the queue holds %v, abstract queue %v", q, w.pending), w.sig("state", "queue"))
+			}
+			if !eqInts(pushed, w.order) {
+				w.fail("every-pushed-element-once", fmt.Sprintf("pushedElements holds %v, first offers in order %v", pushed, w.order), w.sig("state", "pushed-order"))
+			}
+			if stopped != w.stopped || revisit != w.revisit {
+				w.fail("queue-order", fmt.Sprintf("flags stopped=%v revisit=%v want %v %v", stopped, revisit, w.stopped, w.revisit), w.sig("state", "flags"))
+			}
+
+			return fmt.Sprintf("q=%s pushed=%s stopped=%s revisit=%s", showInts(q), showInts(pushed), b01(stopped), b01(revisit))
+		})
 	case "hasnext":
 		return strconv.FormatBool(w.w.HasNext())
 	case "pushed":
@@ -188,7 +212,7 @@ func (w *wkWorld) exec(f []string) string {
 		return strconv.FormatBool(got)
 	case "reset":
 		w.w.Reset()
-		w.pending, w.seen, w.stopped = nil, map[int]bool{}, false
+		w.pending, w.seen, w.stopped, w.order = nil, map[int]bool{}, false, nil
 		w.offered, w.yielded = map[int]int{}, map[int]int{}
 		w.probe("Reset")
 
@@ -257,14 +281,17 @@ var wkContainer = container{
 			default:
 				ops = append(ops, "wk reset")
 			}
+			if rng.Chance(1, 3) {
+				ops = append(ops, "wk state")
+			}
 		}
-		ops = append(ops, "wk drain")
+		ops = append(ops, "wk state", "wk drain", "wk state")
 
 		return ops
 	},
 	corpus: [][]string{
 		// DESIGN.md section 7: PushFront after a repeat
-		{"wk new 0", "wk push 1", "wk pushfront 1 2 3", "wk pushed 2", "wk pushed 3", "wk drain"},
+		{"wk new 0", "wk push 1", "wk pushfront 1 2 3", "wk state", "wk pushed 2", "wk pushed 3", "wk drain", "wk state"},
 		{"wk new 1", "wk push 1", "wk pushfront 1 2 3", "wk push 1", "wk drain"},
 		{"wk new 0", "wk next", "wk pushall 1 2 2 3", "wk stop", "wk hasnext", "wk next", "wk drain", "wk reset", "wk pushed 1", "wk push 1", "wk drain"},
 	},
